@@ -342,8 +342,15 @@ public:
       W.endArr();
     } else if (isa<NullStmt>(s)) {
       W.kv("k", "Null"); locKeys(s);
-    } else if (isa<GotoStmt>(s) || isa<LabelStmt>(s) || isa<IndirectGotoStmt>(s)) {
+    } else if (auto *gs = dyn_cast<GotoStmt>(s)) {
       W.kv("k", "Goto"); locKeys(s);
+      W.kv("label", gs->getLabel()->getNameAsString());
+    } else if (auto *ls = dyn_cast<LabelStmt>(s)) {
+      W.kv("k", "Label"); locKeys(s);
+      W.kv("name", ls->getDecl()->getNameAsString());
+      W.key("sub"); dumpStmt(ls->getSubStmt());
+    } else if (isa<IndirectGotoStmt>(s)) {
+      W.kv("k", "IndirectGoto"); locKeys(s);
       dumpChildrenGeneric(s);
     } else if (auto *a = dyn_cast<GCCAsmStmt>(s)) {
       W.kv("k", "Asm"); locKeys(s);
